@@ -376,8 +376,14 @@ func (r *dtRun) evalInstr(fr *dtFrame, v ssa.Value, depth int) absVal {
 		}
 		return absVal{}
 	case *ssa.Lookup:
-		m := r.eval(fr, x.X)
+		m := r.resolve(r.eval(fr, x.X))
+		if r.need != "" {
+			return absVal{}
+		}
 		k := r.resolve(r.eval(fr, x.Index))
+		if r.need != "" {
+			return absVal{}
+		}
 		if r.spec.OnCall != nil {
 			// map lookups are delegated to the spec through a pseudo-call description
 		}
